@@ -907,10 +907,15 @@ impl MessageReceiver {
             if receiver_entity_id == EntityId::UNKNOWN {
               let sending_writer_entity_id = decoded_writer_submessage.sender_entity_id();
 
-              if let Some(target_reader)=self.available_readers.values().find(|target_reader| {
-                (
-                // Reader must contain the writer
-                target_reader.contains_writer(sending_writer_entity_id)
+              // There may be several such readers: every local reader matched to the
+              // writer gets the submessage, like in the unprotected case.
+              let target_reader_entity_ids: Vec<EntityId> = self
+                .available_readers
+                .values()
+                .filter(|target_reader| {
+                  (
+                    // Reader must contain the writer
+                    target_reader.contains_writer(sending_writer_entity_id)
                     // But there are two exceptions:
                     // 1. SPDP reader must read from unknown SPDP writers
                     //  TODO: This logic here is uglyish. Can we just inject a
@@ -920,15 +925,26 @@ impl MessageReceiver {
                     // 2. ParticipantStatelessReader does not contain any writers, since it is stateless
                     || (sending_writer_entity_id == EntityId::P2P_BUILTIN_PARTICIPANT_STATELESS_WRITER
                       && target_reader.entity_id() == EntityId::P2P_BUILTIN_PARTICIPANT_STATELESS_READER)
+                  ) && security_plugins_handle
+                    .get_plugins()
+                    .confirm_local_endpoint_guid(
+                      &approved_receiving_datareader_crypto_handles,
+                      &GUID {
+                        prefix: self.dest_guid_prefix,
+                        entity_id: target_reader.entity_id(),
+                      },
                     )
-                    &&
-                    security_plugins_handle.get_plugins()
-                    .confirm_local_endpoint_guid(&approved_receiving_datareader_crypto_handles,
-                      &GUID { prefix: self.dest_guid_prefix,entity_id: target_reader.entity_id() })
-              }){
-                self.handle_writer_submessage(target_reader.entity_id(), decoded_writer_submessage);
-              }else{
+                })
+                .map(|target_reader| target_reader.entity_id())
+                .collect();
+              if target_reader_entity_ids.is_empty() {
                 error!("No reader matching the CryptoHandle found");
+              }
+              for target_reader_entity_id in target_reader_entity_ids {
+                self.handle_writer_submessage(
+                  target_reader_entity_id,
+                  decoded_writer_submessage.clone(),
+                );
               }
             } else {
               let receiver_guid = GUID {
